@@ -69,6 +69,8 @@ type caseOut struct {
 	Wreal bool     `json:"wreal"` // wr records come from the real writer
 	Wmax  int      `json:"wmax"`  // longest packet the write path under test supports
 	Wb    int      `json:"wb"`    // write buffer of the packet connection (0: none)
+	Abuf  string   `json:"abuf"`  // shape of the application's ReadFrom buffer (tcpPacketConn cases)
+	Adrop []bool   `json:"adrop"` // per packet: longer than the application's buffer, so ReadFrom must refuse it (tcpPacketConn cases)
 	Wr    []wrRec  `json:"wr"`
 	Rd    []rdRec  `json:"rd"`
 	Out   []outRec `json:"out"`
@@ -387,6 +389,15 @@ func newNDJSON(t *testing.T, path string) *ndjson {
 }
 
 func (o *ndjson) put(v any) {
+	if c, ok := v.(caseOut); ok {
+		for len(c.Adrop) < len(c.Pk) {
+			c.Adrop = append(c.Adrop, false)
+		}
+		if c.Adrop == nil {
+			c.Adrop = []bool{}
+		}
+		v = c
+	}
 	b, err := json.Marshal(v)
 	if err != nil {
 		panic(err)
